@@ -6,6 +6,7 @@ import (
 	"fmt"
 	"time"
 
+	"github.com/twitchtv/twirp"
 	rchord "go.miragespace.co/specter/chord"
 	"go.miragespace.co/specter/spec/chord"
 	"go.miragespace.co/specter/spec/protocol"
@@ -140,9 +141,27 @@ func (v *View) begin(method string) (c *Call, err error) {
 	return c, nil
 }
 
+// wire gives an error returned by the remote side the shape it has after the real RPC layer:
+// the server sends the message text in a twirp error, the client maps the text back through
+// chord.ErrorMapper. Registered sentinel errors keep their identity; anything else (a wrapped
+// or decorated error) arrives as an opaque twirp error.
+func wire(err error) error {
+	if err == nil {
+		return nil
+	}
+	// transport failures of a nested call (the callee could not reach a third node) stay
+	// recognisable as environment, as the checks have always treated them
+	if errors.Is(err, ErrUnreachable) || errors.Is(err, ErrInjected) || errors.Is(err, context.DeadlineExceeded) {
+		return err
+	}
+	return chord.ErrorMapper(twirp.NewError(twirp.Internal, err.Error()))
+}
+
 func (v *View) end(c *Call, err error) error {
 	if c.Mode == LoseResponse {
 		err = injectedErr()
+	} else {
+		err = wire(err)
 	}
 	if v.net.Observe != nil {
 		v.net.Observe(c, "end", err)
